@@ -1,4 +1,4 @@
-SPECIFICATION Spec
+SPECIFICATION MCSpec
 CONSTANTS
   InChans = {0, 1}
   OutChans = {2}
@@ -8,9 +8,7 @@ CONSTANTS
   MaxOps = 4
   MaxCrash = 1
   MaxFail = 1
-  SwitchFaithful = TRUE
-  ClosePatient = TRUE
-  TrimMayFail = FALSE
+  Relaxed = {}
 VIEW View
 INVARIANTS AtMostOnceForward AtMostOneResponse RestartExact OpenedConsistent OpenedSubsetPending OneRecordPerKey OneCircuitPerOut MemDiskAgree ClosedSubset TypeOK
 CHECK_DEADLOCK FALSE
